@@ -25,6 +25,10 @@ let refcache () =
        if not !dead then (match get_referent !c s with Ok (r, c') -> c := c'; emit (show_onat r) | Err er -> emit ("err " ^ err_name er); dead := true)
      | "sr" -> let s = nat_tok () in let r = onat_tok () in let e = next_bool () in
        if not !dead then (c := set_referent !c s r e; emit "ok")
+     | "pg" -> let b = nat_tok () in let n = next_int () in let l = List.init n (fun _ -> nat_tok ()) in
+       if not !dead then (match get_references_abandoned !c b l with Some c' -> c := c'; emit ("took " ^ string_of_int n) | None -> emit "not-references")
+     | "pgx" -> let b = nat_tok () in
+       if not !dead then (let (l, c') = get_references !c b in c := c'; emit ("took " ^ string_of_int (List.length l)))
      | "ap" -> if not !dead then (c := apply !c; emit "ok")
      | "pk" -> let s = nat_tok () in
        if not !dead then (let (r, e) = sym_get s (!c).stab in emit (show_onat r ^ "," ^ bool_s e))
@@ -118,6 +122,8 @@ let omap () =
        let i = List.init n (fun _ -> let d = next_z () in let v = next_z () in (d, v)) in m := setitem_elem !m e i
      | "delo" -> let e = nat_tok () in let d = next_z () in r (fun m' -> m := m'; emit "ok") (delitem_off !m e d)
      | "dele" -> r (fun m' -> m := m'; emit "ok") (delitem_elem !m (nat_tok ()))
+     | "iseto" -> let e = nat_tok () in let d = next_z () in let v = next_z () in r (fun m' -> m := m'; emit "ok") (inner_setitem !m e d v)
+     | "idelo" -> let e = nat_tok () in let d = next_z () in r (fun m' -> m := m'; emit "ok") (inner_delitem !m e d)
      | "ino" -> let e = nat_tok () in let d = next_z () in emit (bool_s (contains_off !m e d))
      | "ine" -> emit (bool_s (contains_elem !m (nat_tok ())))
      | "len" -> emit (string_of_int (int_of_nat (om_len !m)))
